@@ -43,5 +43,7 @@ Deterministic ==
   \A j \in 1..(i - 1) :
      Obs[j].group = O.group =>
         /\ Obs[j].rc = O.rc
-        /\ \A k \in 1..Len(O.outs) : (O.outs[k].requested /\ Obs[j].outs[k].requested) => Obs[j].outs[k].digest = O.outs[k].digest
+        \* (a run that flex refuses produces no scanner: whatever partial text reached stdout before the
+        \* diagnostic is not an output of the generation)
+        /\ O.rc = 0 => \A k \in 1..Len(O.outs) : (O.outs[k].requested /\ Obs[j].outs[k].requested) => Obs[j].outs[k].digest = O.outs[k].digest
 =============================================================================
